@@ -151,5 +151,43 @@ pub fn run_case(line: &str) -> (String, Vec<String>) {
     if k == "or_give_up" && inp == "ft" && shown != "R:err:99" {
         fails.push("C15:or_give_up(fallthrough) is not the supplied error".into());
     }
+    // the documented three-way semantics, spelled out case by case (independent of the Lean model)
+    let want: Option<&str> = match (k, inp, b) {
+        ("or_parse", "ft", "ok") => Some("P:ok:105"),
+        ("or_parse", "ft", "err") => Some("P:err:207"),
+        ("or_parse", "ft", "ft") => Some("P:ft"),
+        ("or_parse", "ok", _) => Some("P:ok:5"),
+        ("or_parse", "err", _) => Some("P:err:7"),
+        ("or_always_parse", "ft", "ok") => Some("R:ok:105"),
+        ("or_always_parse", "ft", "err") => Some("R:err:207"),
+        ("or_always_parse", "ok", _) | ("or_give_up", "ok", _) => Some("R:ok:5"),
+        ("or_always_parse", "err", _) | ("or_give_up", "err", _) => Some("R:err:7"),
+        ("or_give_up", "ft", _) => Some("R:err:99"),
+        ("optional", "ft", _) => Some("R:ok:None"),
+        ("optional", "ok", _) => Some("R:ok:Some(5)"),
+        ("optional", "err", _) | ("matches", "err", _) => Some("R:err:7"),
+        ("matches", "ft", _) => Some("R:ok:false"),
+        ("matches", "ok", _) => Some("R:ok:true"),
+        ("and_then", "ok", "ok") | ("map", "ok", _) => Some("P:ok:105"),
+        ("and_then", "ok", "err") => Some("P:err:205"),
+        ("and_also", "ok", "ok") | ("and_do", "ok", _) => Some("P:ok:1005"),
+        ("and_also", "ok", "err") => Some("P:err:1205"),
+        ("and_then", "ft", _) | ("and_also", "ft", _) | ("and_do", "ft", _) | ("map", "ft", _)
+        | ("map_err", "ft", _) | ("err_into", "ft", _) => Some("P:ft"),
+        ("and_then", "err", _) | ("and_also", "err", _) | ("and_do", "err", _) | ("map", "err", _)
+        | ("err_into", "err", _) | ("from_result", "err", _) => Some("P:err:7"),
+        ("map_err", "err", _) => Some("P:err:307"),
+        ("map_err", "ok", _) | ("err_into", "ok", _) | ("from_result", "ok", _) => Some("P:ok:5"),
+        ("r_err_into", "ok", _) => Some("R:ok:5"),
+        ("r_err_into", "err", _) | ("r_and_also", "err", _) | ("r_and_do", "err", _) => Some("R:err:7"),
+        ("r_and_also", "ok", "ok") | ("r_and_do", "ok", _) => Some("R:ok:1005"),
+        ("r_and_also", "ok", "err") => Some("R:err:1205"),
+        _ => None,
+    };
+    match want {
+        Some(w) if w != shown => fails.push(format!("C15:{} on input {} (closure {}) returned {}, documented result is {}", k, inp, b, shown, w)),
+        None => fails.push(format!("C15:harness has no expected value for {} {} {}", k, inp, b)),
+        _ => {}
+    }
     (format!("{}|{}", shown, calls), fails)
 }
